@@ -1002,4 +1002,396 @@ theorem pres_update {f : Nat} (ih : PresAll f) (P : Id → Prop) (r : Root) (cur
                 obtain ⟨a, b, _⟩ := key old
                 exact ⟨a, b⟩
 
+/-! ### 7. `execStmt`, statement by statement -/
+
+set_option linter.unusedSectionVars false
+
+section stmts
+variable {f : Nat} (ih : PresAll f) {P : Id → Prop} {r r' : Root} {c c' : Ctx}
+  (hI : RInvP P r) (hE : EnvLt r.nodes.size c.env)
+include ih hI hE
+
+theorem pres_read {h : Nat} (hx : execStmt (f + 1) r c (.read h) = .ok (r', c')) : StmtPost P r r' c' := by
+  simp only [execStmt] at hx
+  split at hx
+  · cases hx
+  · split at hx
+    · cases hx
+    · split at hx
+      · cases hx
+      · simp only [Except.ok.injEq, Prod.mk.injEq] at hx
+        obtain ⟨rfl, rfl⟩ := hx
+        obtain ⟨a, b⟩ := track_nodes r ‹Handle›.id
+        obtain ⟨i, g⟩ := hI.same a b
+        exact ⟨i, g, hE.mono g.size⟩
+
+theorem pres_readU {h : Nat} (hx : execStmt (f + 1) r c (.readU h) = .ok (r', c')) : StmtPost P r r' c' := by
+  simp only [execStmt] at hx
+  split at hx
+  · cases hx
+  · split at hx
+    · cases hx
+    · split at hx
+      · cases hx
+      · simp only [Except.ok.injEq, Prod.mk.injEq] at hx
+        obtain ⟨rfl, rfl⟩ := hx
+        exact ⟨hI, Grows.refl _, hE⟩
+
+theorem pres_track {h : Nat} (hx : execStmt (f + 1) r c (.track h) = .ok (r', c')) : StmtPost P r r' c' := by
+  simp only [execStmt] at hx
+  split at hx
+  · cases hx
+  · split at hx
+    · cases hx
+    · simp only [Except.ok.injEq, Prod.mk.injEq] at hx
+      obtain ⟨rfl, rfl⟩ := hx
+      obtain ⟨a, b⟩ := track_nodes r ‹Handle›.id
+      obtain ⟨i, g⟩ := hI.same a b
+      exact ⟨i, g, hE.mono g.size⟩
+
+theorem pres_ifpos {h : Nat} {t e : Body} (hx : execStmt (f + 1) r c (.ifpos h t e) = .ok (r', c')) :
+    StmtPost P r r' c' := by
+  simp only [execStmt] at hx
+  split at hx
+  · cases hx
+  · rename_i hd _
+    split at hx
+    · cases hx
+    · split at hx
+      · cases hx
+      · rename_i v _
+        obtain ⟨a, b⟩ := track_nodes r hd.id
+        obtain ⟨i, g⟩ := hI.same a b
+        have hE1 : EnvLt (track r hd.id).nodes.size c.env := hE.mono g.size
+        split at hx
+        · obtain ⟨i2, g2, e2⟩ := ih.inner P _ { c with acc := mix c.acc v, obs := c.obs ++ [.read hd.id v] } t r' c' i hE1 hx
+          exact ⟨i2, g.trans g2, e2⟩
+        · obtain ⟨i2, g2, e2⟩ := ih.inner P _ { c with acc := mix c.acc v, obs := c.obs ++ [.read hd.id v] } e r' c' i hE1 hx
+          exact ⟨i2, g.trans g2, e2⟩
+
+/-- `untrack`, `component`, and the second half of `on`: run a block with the tracker switched off -/
+theorem pres_untracked {b : Body} {prev : Option (List Id)}
+    (hx : (match execInner f { r with tracker := none } c b with
+      | .error e => .error e
+      | .ok (r, c) => .ok ({ r with tracker := prev }, c)) = (.ok (r', c') : Except Panic (Root × Ctx))) :
+    StmtPost P r r' c' := by
+  split at hx
+  · cases hx
+  · rename_i r1 c1 h1
+    simp only [Except.ok.injEq, Prod.mk.injEq] at hx
+    obtain ⟨rfl, rfl⟩ := hx
+    obtain ⟨i0, g0⟩ := hI.same (r' := { r with tracker := none }) rfl rfl
+    obtain ⟨i1, g1, e1⟩ := ih.inner P _ c b r1 c1 i0 hE h1
+    obtain ⟨i2, g2⟩ := i1.same (r' := { r1 with tracker := prev }) rfl rfl
+    exact ⟨i2, (g0.trans g1).trans g2, e1⟩
+
+theorem pres_untrack {b : Body} (hx : execStmt (f + 1) r c (.untrack b) = .ok (r', c')) :
+    StmtPost P r r' c' := by
+  simp only [execStmt] at hx
+  exact pres_untracked ih hI hE hx
+
+theorem pres_component {b : Body} (hx : execStmt (f + 1) r c (.component b) = .ok (r', c')) :
+    StmtPost P r r' c' := by
+  simp only [execStmt] at hx
+  exact pres_untracked ih hI hE hx
+
+theorem pres_on {deps : List Nat} {b : Body} (hx : execStmt (f + 1) r c (.on deps b) = .ok (r', c')) :
+    StmtPost P r r' c' := by
+  simp only [execStmt] at hx
+  split at hx
+  · cases hx
+  · rename_i r1 h1
+    obtain ⟨a, b'⟩ := trackAll_nodes c deps h1
+    obtain ⟨i1, g1⟩ := hI.same a b'
+    obtain ⟨i2, g2, e2⟩ := pres_untracked ih i1 (hE.mono g1.size) hx
+    exact ⟨i2, g1.trans g2, e2⟩
+
+theorem pres_signal {v : Int} (hx : execStmt (f + 1) r c (.signal v) = .ok (r', c')) :
+    StmtPost P r r' c' := by
+  simp only [execStmt] at hx
+  split at hx
+  · cases hx
+  · rename_i r1 id h1
+    simp only [Except.ok.injEq, Prod.mk.injEq] at hx
+    obtain ⟨rfl, rfl⟩ := hx
+    obtain ⟨i1, g1, hid, hsz1, _⟩ := hI.createNode h1
+    exact ⟨i1, g1, (hE.mono g1.size).snoc (by rw [hsz1, hid]; exact Nat.lt_succ_self _) _⟩
+
+/-- `memo`, `selector`, `effect` -/
+theorem pres_created {eq : EqKind} {b : Body} {kd : Kind}
+    (hx : (match createSelector f r eq ⟨b, c.env, 0⟩ with
+      | .error e => .error e
+      | .ok (r, id) => .ok (r, { c with env := c.env ++ [⟨id, kd⟩] })) = (.ok (r', c') : Except Panic (Root × Ctx))) :
+    StmtPost P r r' c' := by
+  split at hx
+  · cases hx
+  · rename_i r1 id h1
+    simp only [Except.ok.injEq, Prod.mk.injEq] at hx
+    obtain ⟨rfl, rfl⟩ := hx
+    obtain ⟨⟨i1, g1⟩, hid⟩ := ih.selector P r eq ⟨b, c.env, 0⟩ r1 id hI hE h1
+    exact ⟨i1, g1, (hE.mono g1.size).snoc hid _⟩
+
+theorem pres_memo {b : Body} (hx : execStmt (f + 1) r c (.memo b) = .ok (r', c')) : StmtPost P r r' c' := by
+  simp only [execStmt] at hx
+  exact pres_created ih hI hE hx
+
+theorem pres_selectorStmt {eq : EqKind} {b : Body} (hx : execStmt (f + 1) r c (.selector eq b) = .ok (r', c')) :
+    StmtPost P r r' c' := by
+  simp only [execStmt] at hx
+  exact pres_created ih hI hE hx
+
+theorem pres_effect {b : Body} (hx : execStmt (f + 1) r c (.effect b) = .ok (r', c')) : StmtPost P r r' c' := by
+  simp only [execStmt] at hx
+  exact pres_created ih hI hE hx
+
+theorem pres_scope {b : Body} (hx : execStmt (f + 1) r c (.scope b) = .ok (r', c')) : StmtPost P r r' c' := by
+  simp only [execStmt] at hx
+  split at hx
+  · cases hx
+  · rename_i r1 id h1
+    obtain ⟨i1, g1, hid, hsz1, _⟩ := hI.createNode h1
+    have hid1 : id < r1.nodes.size := by rw [hsz1, hid]; exact Nat.lt_succ_self _
+    split at hx
+    · cases hx
+    · rename_i r2 c2 h2
+      simp only [Except.ok.injEq, Prod.mk.injEq] at hx
+      obtain ⟨rfl, rfl⟩ := hx
+      have ia : RInvP P { r1 with current := some id } :=
+        i1.congr rfl (by intro x hc; simp only [Option.some.injEq] at hc; subst hc; exact hid1)
+      obtain ⟨i2, g2, e2⟩ := ih.inner P _ c b r2 c2 ia (hE.mono g1.size) h2
+      have g2' : Grows r1 r2 := ⟨g2.size, g2.dead, g2.run⟩
+      have i3 : RInvP P { r2 with current := r1.current } :=
+        i2.congr rfl (fun x hc => Nat.lt_of_lt_of_le (i1.cur x hc) g2.size)
+      exact ⟨i3, (g1.trans g2').trans (Grows.of_nodes_eq rfl), e2.snoc (Nat.lt_of_lt_of_le hid1 g2.size) _⟩
+
+theorem pres_set {h : Nat} {e : Ex} (hx : execStmt (f + 1) r c (.set h e) = .ok (r', c')) :
+    StmtPost P r r' c' := by
+  simp only [execStmt] at hx
+  split at hx
+  · cases hx
+  · split at hx
+    · cases hx
+    · split at hx
+      · cases hx
+      · rename_i r1 h1
+        split at hx
+        · cases hx
+        · rename_i r2 h2
+          simp only [Except.ok.injEq, Prod.mk.injEq] at hx
+          obtain ⟨rfl, rfl⟩ := hx
+          obtain ⟨i1, g1⟩ := hI.setSilent h1
+          obtain ⟨i2, g2⟩ := ih.updates P r1 _ r2 i1 h2
+          exact ⟨i2, g1.trans g2, hE.mono (g1.trans g2).size⟩
+
+theorem pres_setSilentStmt {h : Nat} {e : Ex} (hx : execStmt (f + 1) r c (.setSilent h e) = .ok (r', c')) :
+    StmtPost P r r' c' := by
+  simp only [execStmt] at hx
+  split at hx
+  · cases hx
+  · split at hx
+    · cases hx
+    · split at hx
+      · cases hx
+      · rename_i r1 h1
+        simp only [Except.ok.injEq, Prod.mk.injEq] at hx
+        obtain ⟨rfl, rfl⟩ := hx
+        obtain ⟨i1, g1⟩ := hI.setSilent h1
+        exact ⟨i1, g1, hE.mono g1.size⟩
+
+theorem pres_cleanupStmt {b : Body} (hx : execStmt (f + 1) r c (.cleanup b) = .ok (r', c')) :
+    StmtPost P r r' c' := by
+  simp only [execStmt] at hx
+  split at hx
+  · simp only [Except.ok.injEq, Prod.mk.injEq] at hx
+    obtain ⟨rfl, rfl⟩ := hx
+    exact ⟨hI, Grows.refl _, hE⟩
+  · rename_i cur _
+    split at hx
+    · cases hx
+    · rename_i n hn
+      simp only [Except.ok.injEq, Prod.mk.injEq] at hx
+      obtain ⟨rfl, rfl⟩ := hx
+      have w := hI.node cur n hn
+      have i1 := hI.setNode (n' := { n with cleanups := n.cleanups ++ [⟨b, c.env, r.nextTag⟩] }) hn rfl rfl rfl rfl
+        ⟨w.run, by
+          intro cl hc
+          simp only [List.mem_append, List.mem_singleton] at hc
+          rcases hc with hc | rfl
+          · exact w.cleanups cl hc
+          · exact hE, w.callback⟩
+      have g1 : Grows r (r.setNode cur { n with cleanups := n.cleanups ++ [⟨b, c.env, r.nextTag⟩] }) :=
+        Grows.setNode _ hn fun x => x
+      obtain ⟨i2, g2⟩ := i1.same
+        (r' := { (r.setNode cur { n with cleanups := n.cleanups ++ [⟨b, c.env, r.nextTag⟩] }) with nextTag := r.nextTag + 1 }) rfl rfl
+      exact ⟨i2, g1.trans g2, hE.mono (g1.trans g2).size⟩
+
+theorem pres_dispose {h : Nat} (hx : execStmt (f + 1) r c (.dispose h) = .ok (r', c')) :
+    StmtPost P r r' c' := by
+  simp only [execStmt] at hx
+  split at hx
+  · cases hx
+  · split at hx
+    · cases hx
+    · rename_i r1 h1
+      simp only [Except.ok.injEq, Prod.mk.injEq] at hx
+      obtain ⟨rfl, rfl⟩ := hx
+      obtain ⟨⟨i1, g1⟩, _⟩ := ih.dnode P r _ r1 hI h1
+      exact ⟨i1, g1, hE.mono g1.size⟩
+
+theorem pres_disposeCur (hx : execStmt (f + 1) r c .disposeCur = .ok (r', c')) : StmtPost P r r' c' := by
+  simp only [execStmt] at hx
+  split at hx
+  · simp only [Except.ok.injEq, Prod.mk.injEq] at hx
+    obtain ⟨rfl, rfl⟩ := hx
+    exact ⟨hI, Grows.refl _, hE⟩
+  · split at hx
+    · cases hx
+    · rename_i r1 h1
+      simp only [Except.ok.injEq, Prod.mk.injEq] at hx
+      obtain ⟨rfl, rfl⟩ := hx
+      obtain ⟨⟨i1, g1⟩, _⟩ := ih.dnode P r _ r1 hI h1
+      exact ⟨i1, g1, hE.mono g1.size⟩
+
+theorem pres_batch {b : Body} (hx : execStmt (f + 1) r c (.batch b) = .ok (r', c')) : StmtPost P r r' c' := by
+  simp only [execStmt] at hx
+  split at hx
+  · cases hx
+  · rename_i r1 c1 h1
+    obtain ⟨i0, g0⟩ := hI.same (r' := { r with batching := true }) rfl rfl
+    obtain ⟨i1, g1, e1⟩ := ih.inner P _ c b r1 c1 i0 hE h1
+    split at hx
+    · simp only [Except.ok.injEq, Prod.mk.injEq] at hx
+      obtain ⟨rfl, rfl⟩ := hx
+      exact ⟨i1, g0.trans g1, e1⟩
+    · split at hx
+      · cases hx
+      · rename_i r2 h2
+        simp only [Except.ok.injEq, Prod.mk.injEq] at hx
+        obtain ⟨rfl, rfl⟩ := hx
+        obtain ⟨i1', g1'⟩ := i1.same (r' := { r1 with batching := false, queue := [] }) rfl rfl
+        obtain ⟨i2, g2⟩ := ih.nodeUpdates P _ r1.queue r2 i1' h2
+        exact ⟨i2, ((g0.trans g1).trans g1').trans g2, e1.mono (g1'.trans g2).size⟩
+
+theorem pres_provide {ty : Nat} {e : Ex} (hx : execStmt (f + 1) r c (.provide ty e) = .ok (r', c')) :
+    StmtPost P r r' c' := by
+  simp only [execStmt] at hx
+  split at hx
+  · cases hx
+  · rename_i r1 h1
+    simp only [Except.ok.injEq, Prod.mk.injEq] at hx
+    obtain ⟨rfl, rfl⟩ := hx
+    obtain ⟨i1, g1⟩ := hI.provideContext h1
+    exact ⟨i1, g1, hE.mono g1.size⟩
+
+theorem pres_use {ty : Nat} (hx : execStmt (f + 1) r c (.use ty) = .ok (r', c')) : StmtPost P r r' c' := by
+  simp only [execStmt] at hx
+  split at hx
+  · cases hx
+  · simp only [Except.ok.injEq, Prod.mk.injEq] at hx
+    obtain ⟨rfl, rfl⟩ := hx
+    exact ⟨hI, Grows.refl _, hE⟩
+
+theorem pres_runIn {h : Nat} {b : Body} (hx : execStmt (f + 1) r c (.runIn h b) = .ok (r', c')) :
+    StmtPost P r r' c' := by
+  simp only [execStmt] at hx
+  split at hx
+  · cases hx
+  · rename_i hd hl
+    split at hx
+    · cases hx
+    · rename_i r1 c1 h1
+      simp only [Except.ok.injEq, Prod.mk.injEq] at hx
+      obtain ⟨rfl, rfl⟩ := hx
+      have ia : RInvP P { r with current := some hd.id } :=
+        hI.congr rfl (by intro x hc; simp only [Option.some.injEq] at hc; subst hc; exact hE hd (lookup_ok hl).2)
+      obtain ⟨i1, g1, e1⟩ := ih.inner P _ c b r1 c1 ia hE h1
+      have g1' : Grows r r1 := ⟨g1.size, g1.dead, g1.run⟩
+      have i2 : RInvP P { r1 with current := r.current } :=
+        i1.congr rfl (fun x hc => Nat.lt_of_lt_of_le (hI.cur x hc) g1.size)
+      exact ⟨i2, g1'.trans (Grows.of_nodes_eq rfl), e1⟩
+
+end stmts
+
+theorem pres_stmt {f : Nat} (ih : PresAll f) (P : Id → Prop) (r : Root) (c : Ctx) (s : Stmt) (r' : Root)
+    (c' : Ctx) (hI : RInvP P r) (hE : EnvLt r.nodes.size c.env)
+    (hx : execStmt (f + 1) r c s = .ok (r', c')) : StmtPost P r r' c' := by
+  cases s with
+  | read h => exact pres_read ih hI hE hx
+  | readU h => exact pres_readU ih hI hE hx
+  | track h => exact pres_track ih hI hE hx
+  | ifpos h t e => exact pres_ifpos ih hI hE hx
+  | untrack b => exact pres_untrack ih hI hE hx
+  | component b => exact pres_component ih hI hE hx
+  | on deps b => exact pres_on ih hI hE hx
+  | signal v => exact pres_signal ih hI hE hx
+  | memo b => exact pres_memo ih hI hE hx
+  | selector eq b => exact pres_selectorStmt ih hI hE hx
+  | effect b => exact pres_effect ih hI hE hx
+  | scope b => exact pres_scope ih hI hE hx
+  | set h e => exact pres_set ih hI hE hx
+  | setSilent h e => exact pres_setSilentStmt ih hI hE hx
+  | cleanup b => exact pres_cleanupStmt ih hI hE hx
+  | dispose h => exact pres_dispose ih hI hE hx
+  | disposeCur => exact pres_disposeCur ih hI hE hx
+  | batch b => exact pres_batch ih hI hE hx
+  | provide ty e => exact pres_provide ih hI hE hx
+  | use ty => exact pres_use ih hI hE hx
+  | runIn h b => exact pres_runIn ih hI hE hx
+
+/-! ### 8. the induction -/
+
+theorem presAll : ∀ f, PresAll f
+  | 0 => presAll_zero
+  | f + 1 =>
+    have ih := presAll f
+    { body := pres_body ih, inner := pres_inner ih, stmt := pres_stmt ih, closure := pres_closure ih,
+      selector := pres_selector ih, update := pres_update ih, loop := pres_loop ih,
+      nodeUpdates := pres_nodeUpdates ih, updates := pres_updates ih, dnode := pres_dnode ih,
+      dchildren := pres_dchildren ih, cleanups := pres_cleanups ih, dlist := pres_dlist ih }
+
+/-! ### 9. the initial state, top-level programs -/
+
+theorem init_get? {j : Id} {n : Node} (h : Root.init.get? j = some n) :
+    j = 0 ∧ n = freshNode (some 0) none := by
+  have hj := Root.lt_size_of_get? h
+  have : j = 0 := by simp [Root.init] at hj; exact hj
+  subst this
+  simp [Root.init, Root.get?] at h
+  exact ⟨rfl, h.symm⟩
+
+theorem rinv_init : RInv Root.init := by
+  refine ⟨?_, ?_, ⟨?_, ?_, ?_⟩, ?_, ?_, ?_, ?_, ?_⟩
+  · intro i n hn; obtain ⟨_, rfl⟩ := init_get? hn; simp [freshNode]
+  · intro a b na nb ha hb; obtain ⟨_, rfl⟩ := init_get? ha; obtain ⟨_, rfl⟩ := init_get? hb; rfl
+  · intro i n hn c hc; obtain ⟨_, rfl⟩ := init_get? hn; simp [freshNode] at hc
+  · intro i n hn; obtain ⟨_, rfl⟩ := init_get? hn; simp [freshNode]
+  · intro i n hn c hc; obtain ⟨_, rfl⟩ := init_get? hn; simp [freshNode] at hc
+  · intro i n hn c hc; obtain ⟨_, rfl⟩ := init_get? hn; simp [freshNode] at hc
+  · intro j m p hm hp; obtain ⟨_, rfl⟩ := init_get? hm; simp [freshNode] at hp
+  · intro i n hn; obtain ⟨_, rfl⟩ := init_get? hn
+    exact ⟨by simp [freshNode], by simp [freshNode], by simp [freshNode]⟩
+  · intro c hc; simp [Root.init] at hc; subst hc; simp [Root.init]
+  · intro j m p np hm hp; obtain ⟨_, rfl⟩ := init_get? hm; simp [freshNode] at hp
+
+/-- a sequence of top-level operations (the driver loop) -/
+theorem runOps_pres (fuel : Nat) : ∀ (ops : List Stmt) (r : Root) (env : List Handle) (r' : Root)
+    (env' : List Handle), RInv r → EnvLt r.nodes.size env → runOps fuel ops r env = .ok (r', env') →
+    RInv r' ∧ Grows r r' ∧ EnvLt r'.nodes.size env'
+  | [], r, env, r', env', hI, hE, hx => by
+    simp only [runOps, Except.ok.injEq, Prod.mk.injEq] at hx
+    obtain ⟨rfl, rfl⟩ := hx
+    exact ⟨hI, Grows.refl _, hE⟩
+  | s :: rest, r, env, r', env', hI, hE, hx => by
+    simp only [runOps] at hx
+    split at hx
+    · cases hx
+    · rename_i r1 c1 h1
+      obtain ⟨i1, g1, e1⟩ := (presAll fuel).stmt _ r ⟨env, 0, []⟩ s r1 c1 hI hE h1
+      obtain ⟨i2, g2, e2⟩ := runOps_pres fuel rest r1 c1.env r' env' i1 e1 hx
+      exact ⟨i2, g1.trans g2, e2⟩
+
+/-- the readable part of the invariant -/
+theorem RInv.ownershipOk {r : Root} (h : RInv r) : OwnershipOk r :=
+  { h.tree with listed := fun j m p np hm hp hnp => (h.listed j m p np hm hp hnp).elim (fun x => x) False.elim }
+
 end SycVerif.Reactive
